@@ -88,6 +88,16 @@ mut("own-M15-symm-pad-memo-bad-key", ["C15"],
       "    key = l + 2*m\n    xe = _PAD.get(key)\n    if xe is None:\n        xe = _PAD[key] = reflect(np.arange(-m, l+m, dtype='int32'), -0.5, l-0.5)\n    return xe"),
      ("pytorch_wavelets/utils.py", "def symm_pad_1d(l, m):", "_PAD = {}\n\n\ndef symm_pad_1d(l, m):")])
 
+mut("own-M16-pad-memo-stashed-on-torch-module", ["C15"],
+    "own-M15 (pad indices memoised by padded length only) with the memo table stored as an attribute of the torch module, i.e. outside anything a re-import of the library resets",
+    [("pytorch_wavelets/utils.py", "    xe = reflect(np.arange(-m, l+m, dtype='int32'), -0.5, l-0.5)\n    return xe",
+      "    import torch\n    memo = torch.__dict__.setdefault('_pw_pad_memo', {})\n    key = l + 2*m\n    xe = memo.get(key)\n    if xe is None:\n        xe = memo[key] = reflect(np.arange(-m, l+m, dtype='int32'), -0.5, l-0.5)\n    return xe")])
+
+mut("own-M17-pad-memo-on-disk", ["C15"],
+    "own-M15 with the memo table kept as .npy files in tempfile.gettempdir(): state that survives even a new interpreter",
+    [("pytorch_wavelets/utils.py", "    xe = reflect(np.arange(-m, l+m, dtype='int32'), -0.5, l-0.5)\n    return xe",
+      "    import os, tempfile\n    path = os.path.join(tempfile.gettempdir(), 'pw_pad_%d.npy' % (l + 2*m))\n    try:\n        return np.load(path)\n    except (OSError, ValueError, EOFError):\n        pass\n    xe = reflect(np.arange(-m, l+m, dtype='int32'), -0.5, l-0.5)\n    try:\n        np.save(path, xe)\n    except OSError:\n        pass\n    return xe")])
+
 mut("own-H1-harmless-lru-cache-correct-key", [],
     "HARMLESS control: padding indices memoised with the complete key (l, m); must NOT alarm",
     [("pytorch_wavelets/utils.py", "    xe = reflect(np.arange(-m, l+m, dtype='int32'), -0.5, l-0.5)\n    return xe",
